@@ -338,7 +338,7 @@ func (e *Env) GoCheck(src []byte, pkgFiles Files) (class, msg string) {
 var pkgNameRe = regexp.MustCompile(`undefined: (fmt|os|strconv|strings|errors|sort|math|time|bytes|reflect|io|bufio)\b`)
 
 var errPhrases = []string{
-	"missing parentheses around composite literal", "overflows", "truncated", "already declared", "permits only one iteration variable", "expects", "declared and not used", "imported and not used", "missing return", "assignment mismatch", "redeclared",
+	"missing parentheses around composite literal", "use of untyped nil", "initialization cycle", "invalid map key", "overflows", "truncated", "already declared", "permits only one iteration variable", "expects", "declared and not used", "imported and not used", "missing return", "assignment mismatch", "redeclared",
 	"not enough arguments", "too many arguments", "not enough return values", "too many return values",
 	"used as value", "is not an expression", "is not a type", "is not used", "no new variables",
 	"non-boolean condition", "cannot use", "cannot convert", "cannot assign", "cannot infer", "cannot range over",
